@@ -96,6 +96,52 @@ def h_pbf_mask(I, job):
     I.reach('end')
 
 
+def h_o5m_meta(I, job):
+    """o5m file read with read_meta::yes and read_meta::no: everything but the metadata must be identical"""
+    uid = I.named('uid', 7); ub = I.named('ub', 8); I.assume(I.term(ub, 8) != 0)
+    anon = I.concretize(I.named('anonymous', 1), 'anonymous first author')
+    zr = [I.named('zref%d' % k, 7) for k in range(2)]
+    B7 = lambda v: z3.ZeroExt(1, I.term(v, 7))
+    if not anon: I.assume(I.term(uid, 7) != 0)
+    user = [0, 0, 0] if anon else [0, B7(uid), 0, I.term(ub, 8), 0]
+    def node(idb, userbytes, xb, yb): body = [idb, 1, 2, 2] + userbytes + [xb, yb]; return [0x10, len(body)] + body
+    def way(idb, userbytes, refs): body = [idb, 1, 2, 2] + userbytes + [len(refs)] + refs; return [0x11, len(body)] + body
+    f = list(C06.O5M_HDR) + ([0xff] if job['reset'] else []) + node(2, user, 6, 8) + node(2, [1], 10, 12) + way(2, [1] if job['backref'] else user, [B7(zr[0]), B7(zr[1])]) + [0xfe]
+    data = I.new_obj(len(f), 'file', 'heap')
+    for k, b in enumerate(f): I.store(data + k, i8, Sym(b, 8) if z3.is_expr(b) else b)
+    dumps = []
+    for meta in (1, 0):
+        I.call('@verif_set_read_meta', [meta]); I.call('@verif_set_summary', [2])
+        out = I.new_obj(1024, 'out%d' % meta, 'heap'); ol = I.new_obj(4, 'ol', 'heap'); c = I.new_obj(4, 'cuts', 'heap')
+        rc = I.concretize(I.call('@verif_o5m_run', [data, len(f), c, 0, out, 1024, ol]), 'rc'); I.observe('rc%d' % meta, rc)
+        I.call('@verif_set_summary', [0]); I.call('@verif_set_read_meta', [1])
+        if rc != 0: raise Finding('rejects-valid', 'valid o5m file rejected with read_meta::%s (rc=%d)' % ('yes' if meta else 'no', rc))
+        dumps.append((out, I.concretize(I.load(ol, i32), 'n')))
+    def objects(out, n):
+        pos = 0; objs = []
+        W = lambda p: I.load(out + p, i64)
+        while pos < n:
+            hdr = [W(pos + 8 * k) for k in range(7)]; pos += 56
+            ulen = I.concretize(W(pos), 'user length'); pos += 8 + ulen
+            t = I.concretize(hdr[0], 'type')
+            if t == 1: rest = [W(pos), W(pos + 8)]; pos += 16
+            else:
+                cnt = I.concretize(W(pos), 'refs'); pos += 8; rest = [cnt]
+                for _ in range(cnt): rest += [W(pos), W(pos + 8), W(pos + 16)]; pos += 24
+            ntags = I.concretize(W(pos), 'tags'); pos += 8
+            if ntags: raise Finding('object-shape', 'unexpected tags')
+            objs.append((t, hdr[1], rest))
+        return objs
+    a, b = objects(*dumps[0]), objects(*dumps[1])
+    if len(a) != len(b): raise Finding('object-count', '%d objects with metadata, %d without' % (len(a), len(b)))
+    for k, ((t1, id1, r1), (t2, id2, r2)) in enumerate(zip(a, b)):
+        if t1 != t2 or len(r1) != len(r2): raise Finding('object-shape', 'object %d: type or reference count differs between read_meta::yes and ::no' % k)
+        eq = lambda x, y: (I.term(x, 64) if isinstance(x, Sym) else z3.BitVecVal(x, 64)) == (I.term(y, 64) if isinstance(y, Sym) else z3.BitVecVal(y, 64))
+        I.obligation(eq(id1, id2), 'id', 'object %d: id differs between read_meta::yes and ::no' % k)
+        for j, (x, y) in enumerate(zip(r1, r2)): I.obligation(eq(x, y), 'content', 'object %d: location / reference word %d differs between read_meta::yes and ::no' % (k, j))
+    I.reach('end')
+
+
 def harnesses(tier):
     q = tier == 'quick'
     nl = 6 if q else 9
@@ -117,4 +163,7 @@ def harnesses(tier):
     hs.append(Harness('pbf_dense_without_metadata', 'decode', C02.h_dense, jobs=[dict(gran=g, layout=l, meta=0) for g in (100, 250, 1, 1000, 37) for l in ('SGgao', 'gaoSG')],
                       desc='PBFPrimitiveBlockDecoder with read_meta::no on a block with two dense nodes: ids / latitudes / longitudes are the running sums of symbolic zig-zag deltas and the coordinates follow (offset + granularity * value) / 100 for symbolic offsets and several granularities, exactly as with metadata (same reference as C02 pbf_dense_nodes)',
                       bounds='2 nodes, 28-bit symbolic deltas and offsets, granularity in {100, 250, 1, 1000, 37}'))
+    hs.append(Harness('o5m_without_metadata', 'chunk', h_o5m_meta, setup=C06.setup_env, jobs=[dict(reset=r, backref=b) for r in (0, 1) for b in (0, 1)],
+                      desc='O5mParser on a file with two nodes and a way carrying author information (named or anonymous first author with symbolic uid / name byte, inline and by back-reference, with and without a reset marker, symbolic reference deltas), read once with read_meta::yes and once with read_meta::no: number, types, ids, locations and node references of the delivered objects are identical (only metadata may differ)',
+                      bounds='3 objects, 7-bit symbolic uid and reference deltas'))
     return hs
